@@ -362,6 +362,25 @@ SiblingInputs(u) ==
                         r \in { R(pp[1], pp[2], pp[3], sel[1], sel[2], sel[3], lc, ca) :
                                  pp \in PPSib, sel \in SelSib, lc \in LSib, ca \in CASib } } }
 
+\* bucket pairs: two rules that land in the same direction / proto / port / CA bucket, whose remote selectors overlap
+\* (strictly nested remote CIDRs, a host and groups the same peer carries, nested group lists) and whose local CIDRs
+\* differ (nested, disjoint, default, any). Rules are OR'd: what only the less specific rule admits must still pass,
+\* so a "most specific entry wins" lookup anywhere in FirewallRule / firewallLocalCIDR is visible.
+SelNest == { <<<<>>, "", C(<<10, 0, 0, 0>>, 24)>>, <<<<>>, "", C(<<10, 0, 0, 2>>, 31)>>, <<<<>>, "", C(<<10, 0, 0, 2>>, 32)>>,
+             <<<<>>, "", C(<<172, 16, 0, 0>>, 12)>>, <<<<>>, "", C(<<172, 16, 5, 0>>, 24)>>,
+             <<<<>>, "host-a", NoC>>, <<<<"g1">>, "", NoC>>, <<<<"g1", "g2">>, "", NoC>> }
+LNest   == {NoC, AnyC, C(<<192, 168, 0, 0>>, 24), C(<<192, 168, 0, 64>>, 27)}
+             \cup (IF Thorough THEN {C(<<10, 0, 0, 1>>, 32), C(<<10, 0, 0, 0>>, 24)} ELSE {})
+Buckets == { <<"in", "tcp", <<80, 90>>, <<"", "">>>>, <<"out", "any", <<0, 0>>, <<"ca-one", "">>>>, <<"in", "udp", <<0, 0>>, <<"", "sha1">>>> }
+             \cup (IF Thorough THEN { <<"out", "tcp", <<80, 80>>, <<"", "">>>>, <<"in", "any", <<80, 90>>, <<"", "">>>>,
+                                     <<"in", "icmp", <<0, 0>>, <<"", "">>>> } ELSE {})
+BucketPairInputs(u) ==
+    { [kind |-> "rules", env |-> e,
+       rules |-> << R(b[1], b[2], b[3], x[1][1], x[1][2], x[1][3], x[3], b[4]),
+                    R(b[1], b[2], b[3], x[2][1], x[2][2], x[2][3], x[4], b[4]) >>] :
+        e \in (IF Thorough THEN {"plain", "unsafe", "unsafeAny"} ELSE {"unsafe"}), b \in Buckets,
+        x \in { x \in SelNest \X SelNest \X LNest \X LNest : x[1] # x[2] /\ x[3] # x[4] } }
+
 \* expected verdicts of a rule sequence: for both directions the pairs that must / may be allowed
 HasDir(rules, dir) == \E i \in DOMAIN rules : rules[i].dir = dir
 AllowSet(rules, envId, dir, hi) ==
@@ -690,7 +709,7 @@ InitC16Single == (in = Universe \/ in \in SingleQuickA(0) \/ in \in SingleQuickB
 \* the thorough lattice in three parts (one TLC run each)
 InitC16SingleTA == (in = Universe \/ in \in SingleThoroughA(0)) /\ Pending
 InitC16SingleTB == (in = Universe \/ in \in SingleThoroughB(0) \/ in \in SingleThoroughC(0)) /\ Pending
-InitC16Multi  == (in = Universe \/ in \in MultiInputs(0) \/ in \in SiblingInputs(0)) /\ Pending
+InitC16Multi  == (in = Universe \/ in \in MultiInputs(0) \/ in \in SiblingInputs(0) \/ in \in BucketPairInputs(0)) /\ Pending
 InitC17       == (in = Universe \/ in \in Inputs17(0)) /\ Pending
 InitC22       == /\ \/ in = Universe
                     \/ in \in CfgPort(0) \/ in \in CfgOne(0) \/ in \in CfgLists(0)
